@@ -326,6 +326,13 @@ pub async fn spawn_node(net: &Arc<SimNet>, name: &str, virt_addr: SocketAddr, re
 /// as `spawn_node`, with a transport connection timeout different from the DHT request timeout
 pub async fn spawn_node_ct(net: &Arc<SimNet>, name: &str, virt_addr: SocketAddr, request_timeout: Duration, connection_timeout: Duration, k: usize)
     -> anyhow::Result<Node> {
+    spawn_node_opts(net, name, virt_addr, request_timeout, connection_timeout, k, false).await
+}
+
+/// `aligned`: configure the transport peer id as `DhtNetworkConfig::local_peer_id` (the identifier a node claims in
+/// its requests then equals the one its peers name it by)
+pub async fn spawn_node_opts(net: &Arc<SimNet>, name: &str, virt_addr: SocketAddr, request_timeout: Duration, connection_timeout: Duration, k: usize, aligned: bool)
+    -> anyhow::Result<Node> {
     let node_config = NodeConfig::builder().peer_id(name.to_string()).listen_port(0).ipv6(false).build()?;
     let transport = Arc::new(TransportHandle::new(TransportConfig {
         peer_id: name.to_string(),
@@ -342,7 +349,7 @@ pub async fn spawn_node_ct(net: &Arc<SimNet>, name: &str, virt_addr: SocketAddr,
     transport.start_network_listeners().await?;
     let tid = transport.transport_peer_id().unwrap_or_else(|| name.to_string());
     let config = DhtNetworkConfig {
-        local_peer_id: name.to_string(),
+        local_peer_id: if aligned { tid.clone() } else { name.to_string() },
         dht_config: DHTConfig::default(),
         node_config,
         request_timeout,
